@@ -204,10 +204,11 @@ def _execute(program: str) -> str:
 
 
 def check_observed(chk: Check) -> None:
-    by = seeds.by_codemod()
+    by = seeds.by_codemod(with_extra=True)
     scenarios = []
     for cid in OBSERVED:
-        cands = sorted(by.get(cid, []), key=lambda s: (len(s.input), s.key))[: chk.pick(8, 60)]
+        allc = sorted(by.get(cid, []), key=lambda s: (len(s.input), s.key))
+        cands = [s for s in allc if not s.test.startswith("extra::")][: chk.pick(8, 60)] + [s for s in allc if s.test.startswith("extra::")]
         files, metas = {}, {}
         for n, s in enumerate(cands):
             if not seeds.compiles(s.input):
